@@ -14,7 +14,7 @@ CONSTANTS
   MaxAcks = 1
   MaxGen = 4
   MaxNotify = 1
-  MaxEnds = 1
+  MaxEnds = 0
   MaxFail = 0
   AutoReset = "earliest"
   Finite = FALSE
